@@ -20,6 +20,7 @@ EXPLANATION = ("Table-agreement rules over Table.where/_compare/insert/index: th
                "distinct sorted values; any method that appends rows while index columns are set re-sorts or clears the index; "
                "selections are built from ascending ranges or sorted.")
 EXPLANATION += ' R6: row-adding statements invalidate the cached index ranges on every path; R7: no per-keyword decision is carried into the next keyword.'
+EXPLANATION += ' R2 also: the bisect shortcut tests the range first; R8: groupby walks the ranges of its level; R9: Missing defines all four order comparisons, copy() storage (known finding).'
 
 RES = "coba/results/core.py"
 # operator -> (normalised bisect ranges, scan comparison)
